@@ -7,6 +7,7 @@ package asm
 // parsed module spells the same tokens again.
 
 import (
+	"os/exec"
 	"fmt"
 	"os"
 	"strconv"
@@ -15,6 +16,9 @@ import (
 
 	"github.com/llir/llvm/internal/enc"
 	"github.com/llir/llvm/ir"
+	"github.com/llir/llvm/ir/constant"
+	"github.com/llir/llvm/ir/enum"
+	"github.com/llir/llvm/ir/types"
 )
 
 func TestVerifC11Asm(t *testing.T) {
@@ -100,9 +104,113 @@ func TestVerifC11Asm(t *testing.T) {
 		cases++
 		one(n)
 	}
+	// type names (an all-digit name without leading zeros is a type ID by the library's data model), and quoted
+	// strings in the positions package ir prints through its own quote helper
+	for _, n := range names {
+		cases++
+		func() {
+			defer func() {
+				if e := recover(); e != nil {
+					fail("type name / string %q: panic %v", n, e)
+				}
+			}()
+			m := ir.NewModule()
+			td := m.NewTypeDef(n, types.NewStruct(types.I32))
+			g := m.NewGlobalDef("g", constant.NewZeroInitializer(td))
+			g.Section = n
+			g.Partition = n
+			f := m.NewFunc("f", types.Void)
+			f.NewBlock("").NewRet(nil)
+			f.GC = n
+			f.Section = n
+			f.FuncAttrs = append(f.FuncAttrs, ir.AttrString(n), ir.AttrPair{Key: n, Value: n})
+			m.SourceFilename = n
+			m.ModuleAsms = append(m.ModuleAsms, n)
+			text := m.String()
+			m2, err := ParseString("s.ll", text)
+			if err != nil {
+				fail("type name / string %q: the printed module does not parse: %v\n%s", n, err, text)
+				return
+			}
+			if len(m2.TypeDefs) != 1 || m2.TypeDefs[0].Name() != n {
+				fail("type name %q printed as %s is read back as %q", n, enc.TypeName(n), m2.TypeDefs[0].Name())
+			}
+			g2, f2 := m2.Globals[0], m2.Funcs[0]
+			for what, got := range map[string]string{"section of a global": g2.Section, "partition": g2.Partition, "gc": f2.GC, "section of a function": f2.Section, "source_filename": m2.SourceFilename, "module asm": m2.ModuleAsms[0]} {
+				if got != n {
+					fail("string %q printed as %s of the module is read back as %q", n, what, got)
+				}
+			}
+			okS, okP := false, false
+			for _, a := range f2.FuncAttrs {
+				switch a := a.(type) {
+				case ir.AttrString:
+					okS = okS || string(a) == n
+				case ir.AttrPair:
+					okP = okP || (a.Key == n && a.Value == n)
+				}
+			}
+			if !okS || !okP {
+				fail("string %q printed as attribute string / pair is not read back (%v)", n, f2.FuncAttrs)
+			}
+			if msg := verifC11LLVMAs(text); msg != "" {
+				fail("type name / string %q: llvm-as rejects the printed module: %s\n%s", n, msg, text)
+			}
+		}()
+	}
+	// comdat shorthand: `comdat` without a name stands for the comdat named exactly as the global
+	for _, tc := range []struct{ gname, cname string }{{"42", "\"42\""}, {"", "0"}, {"a", "a"}, {"42", "42"}, {"007", "7"}, {"7", "007"}} {
+		cases++
+		func() {
+			defer func() {
+				if e := recover(); e != nil {
+					fail("comdat %q of global %q: panic %v", tc.cname, tc.gname, e)
+				}
+			}()
+			m := ir.NewModule()
+			c := &ir.ComdatDef{Name: tc.cname, Kind: enum.SelectionKindAny}
+			m.ComdatDefs = append(m.ComdatDefs, c)
+			g := m.NewGlobalDef(tc.gname, constant.NewInt(types.I32, 1))
+			g.Comdat = c
+			text := m.String()
+			m2, err := ParseString("c.ll", text)
+			if err != nil {
+				fail("comdat %q of global %q: the printed module does not parse: %v\n%s", tc.cname, tc.gname, err, text)
+				return
+			}
+			if m2.Globals[0].Comdat == nil || m2.Globals[0].Comdat.Name != tc.cname {
+				fail("comdat %q of global %q is read back as %v\n%s", tc.cname, tc.gname, m2.Globals[0].Comdat, text)
+			}
+			if msg := verifC11LLVMAs(text); msg != "" {
+				fail("comdat %q of global %q: llvm-as rejects the printed module: %s\n%s", tc.cname, tc.gname, msg, text)
+			}
+		}()
+	}
 	fmt.Printf("REPLAY-SAMPLE %d names, e.g. %q -> %s\n", len(names), names[len(names)/2], enc.GlobalName(names[len(names)/2]))
 	fmt.Printf("REPLAY-CASES %d\n", cases)
 	if fails > 0 {
 		t.Fatalf("%d failures", fails)
 	}
+}
+
+
+// verifC11LLVMAs: LLVM's own lexer and parser accept the text ("" when accepted or when no llvm-as is installed).
+func verifC11LLVMAs(text string) string {
+	bin := ""
+	for _, c := range []string{"llvm-as-14", "llvm-as"} {
+		if p, err := exec.LookPath(c); err == nil {
+			bin = p
+			break
+		}
+	}
+	if bin == "" {
+		return ""
+	}
+	cmd := exec.Command(bin, "-disable-verify", "-o", os.DevNull, "-")
+	cmd.Stdin = strings.NewReader(text)
+	out, err := cmd.CombinedOutput()
+	if err != nil {
+		return strings.TrimSpace(strings.Split(string(out), "\n")[0])
+	}
+	return ""
 }
